@@ -71,6 +71,65 @@ type Strings struct {
 
 func (Strings) GetTypeID() uint8 { return 12 }
 
+// Arrays: slices and fixed arrays of every integer width (small values make the JSON shorter than
+// the binary encoding, large ones longer).
+type Arrays struct {
+	A8  []uint8   `serialize:"true" json:"a8"`
+	A16 []uint16  `serialize:"true" json:"a16"`
+	A32 []uint32  `serialize:"true" json:"a32"`
+	A64 []uint64  `serialize:"true" json:"a64"`
+	S16 []int16   `serialize:"true" json:"s16"`
+	S64 []int64   `serialize:"true" json:"s64"`
+	F64 [5]uint64 `serialize:"true" json:"f64"`
+}
+
+func (Arrays) GetTypeID() uint8 { return 13 }
+
+type id10 struct{}
+
+func (id10) GetTypeID() uint8 { return 10 }
+
+type id11 struct{}
+
+func (id11) GetTypeID() uint8 { return 11 }
+
+// secondChain returns the ABI and values of a second chain (or a later version of the first)
+// whose types are ALSO called Numbers / Inner / Outer but have other layouts: ABIs are
+// per-chain data, nothing learnt from one may leak into the handling of another.
+func secondChain() (abi.ABI, []caseT) {
+	type Numbers struct {
+		id10
+		U64 uint64 `serialize:"true" json:"u64"`
+		Tag string `serialize:"true" json:"tag"`
+		U8  uint8  `serialize:"true" json:"u8"`
+	}
+	type Inner struct {
+		C []uint16 `serialize:"true" json:"c"`
+		Z uint64   `serialize:"true" json:"z"`
+	}
+	type Outer struct {
+		id11
+		In   Inner    `serialize:"true" json:"in"`
+		N    int64    `serialize:"true" json:"n"`
+		Strs []string `serialize:"true" json:"strs"`
+		Ins  []Inner  `serialize:"true" json:"ins"`
+	}
+	a, err := abi.NewABI([]codec.Typed{&Numbers{}, &Outer{}}, []codec.Typed{&Numbers{}})
+	if err != nil {
+		evid.Infra("second abi: %v", err)
+	}
+	var cs []caseT
+	for _, u := range []uint64{0, 1 << 40, math.MaxUint64} {
+		for _, tag := range []string{"", "t", "héllo"} {
+			n := &Numbers{U64: u, Tag: tag, U8: 200}
+			cs = append(cs, caseT{abi: a, typeName: "Numbers", v: n, what: "second-chain Numbers"}, caseT{abi: a, typeName: "Numbers", v: n, isOutput: true, what: "second-chain Numbers(output)"})
+		}
+		o := &Outer{In: Inner{C: []uint16{1, 2}, Z: u}, N: -5, Strs: []string{"x", ""}, Ins: []Inner{{Z: 1}, {C: []uint16{}, Z: u}}}
+		cs = append(cs, caseT{abi: a, typeName: "Outer", v: o, what: "second-chain Outer"})
+	}
+	return a, cs
+}
+
 func native(v codec.Typed) []byte {
 	p := &wrappers.Packer{Bytes: make([]byte, 0, 256), MaxSize: consts.NetworkSizeLimit}
 	p.PackByte(v.GetTypeID())
@@ -153,7 +212,7 @@ func main() {
 	if err != nil {
 		evid.Infra("abi: %v", err)
 	}
-	abiH, err := abi.NewABI([]codec.Typed{&Numbers{}, &Outer{}, &Strings{}, &abi.ABI{}}, []codec.Typed{&Numbers{}, &Strings{}})
+	abiH, err := abi.NewABI([]codec.Typed{&Numbers{}, &Outer{}, &Strings{}, &abi.ABI{}, &Arrays{}}, []codec.Typed{&Numbers{}, &Strings{}, &Arrays{}})
 	if err != nil {
 		evid.Infra("abi: %v", err)
 	}
@@ -208,6 +267,42 @@ func main() {
 				}
 			}
 		}
+	}
+	// integer arrays: lengths 0, 1, 8, 64, 300 of small values (JSON shorter than the encoding) and of
+	// the maximal value (JSON longer)
+	for _, n := range []int{0, 1, 8, 64, 300} {
+		for _, big := range []bool{false, true} {
+			ar := &Arrays{A8: make([]uint8, n), A16: make([]uint16, n), A32: make([]uint32, n), A64: make([]uint64, n), S16: make([]int16, n), S64: make([]int64, n)}
+			for i := 0; i < n; i++ {
+				if big {
+					ar.A8[i], ar.A16[i], ar.A32[i], ar.A64[i], ar.S16[i], ar.S64[i] = 255, 65535, math.MaxUint32, math.MaxUint64, math.MinInt16, math.MinInt64
+				} else {
+					ar.A8[i], ar.A16[i], ar.A32[i], ar.A64[i], ar.S16[i], ar.S64[i] = uint8(i%2), uint16(i%3), uint32(i%2), uint64(i%10), int16(-(i % 2)), int64(i%2)
+				}
+			}
+			if big {
+				ar.F64 = [5]uint64{math.MaxUint64, math.MaxUint64, 0, 1, math.MaxUint64}
+			}
+			cases = append(cases, caseT{abi: abiH, typeName: "Arrays", v: ar, what: "Arrays"}, caseT{abi: abiH, typeName: "Arrays", v: ar, isOutput: true, what: "Arrays(output)"})
+		}
+	}
+	// a second chain with same-named types of other layouts, interleaved with the first chain's cases:
+	// first chain, second chain, first chain again
+	_, second := secondChain()
+	firstAgain := []caseT{}
+	for _, c := range cases {
+		if c.what == "Numbers" || c.what == "Outer" || c.what == "Numbers(output)" {
+			firstAgain = append(firstAgain, c)
+			if len(firstAgain) >= 40 {
+				break
+			}
+		}
+	}
+	cases = append(cases, second...)
+	for _, c := range firstAgain {
+		c.what = strings.Replace(c.what, "Numbers", "Numbers after the second chain", 1)
+		c.what = strings.Replace(c.what, "Outer", "Outer after the second chain", 1)
+		cases = append(cases, c)
 	}
 	// the framework's own typed struct: ABIs of increasing shape
 	for _, a := range []abi.ABI{{}, abiM, abiH, {Actions: []abi.TypedStruct{{ID: 255, Name: ""}}, Outputs: []abi.TypedStruct{}, Types: []abi.Type{{Name: "T", Fields: []abi.Field{}}, {Name: "U", Fields: []abi.Field{{Name: "f", Type: "[]uint8"}}}}}} {
